@@ -251,6 +251,18 @@ func c05check(c *mon.Ctx, env *Env, v []*big.Int, cls string, extra bool, rng *r
 		} else if g2, ok2 := ElemToRef(&gen); !ok2 || !ref.ClassEqual(g2, want) {
 			c.Fail("multiscalar-differs-from-reference", "ipa.MultiScalar(SRS, v) != sum v_i*G_i ("+cls+")", det())
 		}
+		// the generic MSM with its task-count option set as on a machine with many more cores (ipa.MultiScalar passes
+		// the CPU count): the published SRS prefix and the same scalars must give the same element
+		if len(full) > 0 {
+			tasks := []int{48, 64, 100, 128, 300, 1024}[rng.Intn(6)]
+			var g3 banderwagon.Element
+			if _, err := g3.MultiExp(env.Conf.SRS[:len(full)], full, banderwagon.MultiExpConfig{NbTasks: tasks, ScalarsMont: true}); err != nil {
+				c.Fail("error/MultiExp", err.Error(), nil)
+			} else if gp3, ok3 := ElemToRef(&g3); !ok3 || !ref.ClassEqual(gp3, want) {
+				c.Fail("multiexp-over-srs-differs-from-reference", fmt.Sprintf("Element.MultiExp(SRS[:%d], v, NbTasks=%d) != sum v_i*G_i (%s)", len(full), tasks, cls), det())
+			}
+			c.Count("generic_msm_many_tasks_compared", 1)
+		}
 		// scaling and update
 		k := randScalar(rng)
 		kv := make([]*big.Int, len(v))
